@@ -128,7 +128,8 @@ Definition next_is_ws_or_end (s : string) : bool :=
   end.
 
 (* result: token, rest, new position *)
-Fixpoint lex_str (fuel : nat) (s : string) (pos : nat) (tmp : string) (start endpos : nat)
+(* [curly]: the literal was opened by a left curly quote; only then does a right curly quote close it *)
+Fixpoint lex_str (curly : bool) (fuel : nat) (s : string) (pos : nat) (tmp : string) (start endpos : nat)
   : tok * string * nat :=
   match fuel with
   | O => (TErr PUntermStr pos endpos, s, pos)
@@ -142,23 +143,23 @@ Fixpoint lex_str (fuel : nat) (s : string) (pos : nat) (tmp : string) (start end
         | Some (c2, r2) =>
           let p2 := S pos + String.length c2 in
           match c2 with
-          | "\" => lex_str f r2 p2 (tmp ++ "\") start endpos
-          | String """" "" => lex_str f r2 p2 (tmp ++ String """" "") start endpos
-          | "n" => lex_str f r2 p2 (tmp ++ String (ascii_of_N 10) "") start endpos
-          | "r" => lex_str f r2 p2 (tmp ++ String (ascii_of_N 13) "") start endpos
-          | "t" => lex_str f r2 p2 (tmp ++ String (ascii_of_N 9) "") start endpos
+          | "\" => lex_str curly f r2 p2 (tmp ++ "\") start endpos
+          | String """" "" => lex_str curly f r2 p2 (tmp ++ String """" "") start endpos
+          | "n" => lex_str curly f r2 p2 (tmp ++ String (ascii_of_N 10) "") start endpos
+          | "r" => lex_str curly f r2 p2 (tmp ++ String (ascii_of_N 13) "") start endpos
+          | "t" => lex_str curly f r2 p2 (tmp ++ String (ascii_of_N 9) "") start endpos
           | _ => (TErr PEscape pos p2, r2, p2)
           end
         end
       else if (byte_of c =? 34)%N then
         let p2 := S pos in
         if next_is_ws_or_end r then (TLit (CStr tmp), r, p2) else (TErr PExpectWs start p2, r, p2)
-      else if starts_rdq s then
+      else if curly && starts_rdq s then
         let r3 := str_drop 3 s in
         let p2 := pos + 3 in
         if next_is_ws_or_end r3 then (TLit (CStr tmp), r3, p2) else (TErr PExpectWs start p2, r3, p2)
       else
-        lex_str f r (S pos) (tmp ++ String c "") start endpos
+        lex_str curly f r (S pos) (tmp ++ String c "") start endpos
     end
   end.
 
@@ -245,10 +246,10 @@ Definition lex_next (l : lexst) : tok * lexst :=
     | "" => fin TEnd "" start
     | String c r =>
       if (byte_of c =? 34)%N then
-        let '(t, rest, pos) := lex_str (S (String.length r)) r (S start) "" start (llen l) in fin t rest pos
+        let '(t, rest, pos) := lex_str false (S (String.length r)) r (S start) "" start (llen l) in fin t rest pos
       else if starts_ldq (lrest l) then
         let r3 := str_drop 3 (lrest l) in
-        let '(t, rest, pos) := lex_str (S (String.length r3)) r3 (start + 3) "" start (llen l) in fin t rest pos
+        let '(t, rest, pos) := lex_str true (S (String.length r3)) r3 (start + 3) "" start (llen l) in fin t rest pos
       else if (byte_of c =? 124)%N then
         let '(t, rest, pos) := lex_bits r (S start) bvb_empty (llen l) in fin t rest pos
       else
